@@ -272,6 +272,7 @@ Proof.
   - cbn [ienc map concat length]. unfold IDX_AREA. lia.
   - intros _. rewrite frl_nil. lia.
   - lia.
+  - reflexivity.
 Qed.
 
 Theorem init_fresh limit start pre split :
